@@ -263,7 +263,14 @@ def run_schedule(R, GA, W, B, nrec, T, faults, script=None):
     names = []
     for p in out.parts:
         names.append(p.split("\t")[0] if isinstance(p, str) else "?")
+    # multiprocessing joins non-daemon children when the interpreter exits; a child that still has results to deliver
+    # blocks in its queue feeder thread once the pipe is full, because nobody reads the queue any more
+    LIVE_PENDING[0] = outcome.startswith("exit:") and any(
+        p.started and not p.dead and p.items is not None and p.got < len(p.items) and p.death is None for p in ENV[0].procs)
     return outcome, names, list(sched.trace), list(sched.events), ENV[0].faulty
+
+
+LIVE_PENDING = [False]
 
 
 def judge(outcome, names, nrec, faulty):
@@ -275,6 +282,10 @@ def judge(outcome, names, nrec, faulty):
         return ("hang", "the collection loop did not finish within the loop fuel")
     if faulty:
         if outcome.startswith("exit:") and outcome not in ("exit:0", "exit:None"):
+            if LIVE_PENDING[0]:
+                return ("exit-with-live-worker", "realign called sys.exit while a healthy worker was still running with undelivered results: at interpreter "
+                        "exit multiprocessing joins that worker, which blocks in its queue feeder thread as soon as its remaining results exceed the pipe "
+                        "buffer - the command hangs instead of terminating")
             return None
         if outcome == "ok":
             return ("fault-unnoticed", "a worker died abnormally but realign returned normally (records written: %r)" % (names,))
